@@ -146,6 +146,21 @@ CHECKS['C03'] = dict(
          'registration order never changes the outcome.',
     design='4 C03')
 
+CHECKS['C16'] = dict(
+    technique='Hypothesis-generated (model, node, requirement call) triples '
+              'against predicates written from the docstrings (reference-'
+              'model oracle incl. the reference type matcher) + purity check',
+    text='Generated registered models x nodes (documents derived from values, '
+         'mutations, random trees, hex/octal ints) x one call of '
+         'require_scalar (0-3 of str/int/float/bool/None/date), '
+         'require_mapping, require_sequence, require_attribute(name[, type '
+         'from the full type language incl. classes, enums, string-likes, '
+         'unions, containers]), require_attribute_value / _value_not (five '
+         'scalar kinds): returns exactly when the documented condition '
+         'holds, raises RecognitionError otherwise, never another exception, '
+         'never modifies the node.',
+    design='4 C16')
+
 NOT_YET = 'check not built yet in this session (work in progress)'
 
 
